@@ -835,20 +835,26 @@ func TestC09(t *testing.T) {
 		}
 		return gridNoAttr // a predicate that says "pending" must not protect a change without the attribute
 	}
-	// smaller families first, so that a time cap cuts the largest one
-	for n := 0; n <= nReady; n++ {
-		family(fmt.Sprintf("finished-only-%d", n), configs(options(false, true), n), func([]chgDesc) [][]pruneP { return gridReady })
+	// the quick tier's families first (so that a capped thorough run still contains the quick one), then the larger
+	// ones by size, so that a time cap cuts the largest
+	ready := options(false, true)
+	grid := func(g [][]pruneP) func([]chgDesc) [][]pruneP { return func([]chgDesc) [][]pruneP { return g } }
+	for n := 0; n <= 3; n++ {
+		family(fmt.Sprintf("finished-only-%d", n), configs(ready, n), grid(gridReady))
 	}
-	for n := 0; n <= nSeq2; n++ {
-		family(fmt.Sprintf("two-prunes-%d", n), configs(all, n), func([]chgDesc) [][]pruneP { return seq2 })
-	}
-	for n := 0; n <= nSeq3; n++ {
-		if nSeq3 > 0 {
-			family(fmt.Sprintf("three-prunes-%d", n), configs(all, n), func([]chgDesc) [][]pruneP { return seq3 })
-		}
-	}
-	for n := 0; n <= nMix; n++ {
+	for n := 0; n <= 2; n++ {
 		family(fmt.Sprintf("mixed-%d", n), configs(all, n), mixSeqs)
+	}
+	for n := 0; n <= 1; n++ {
+		family(fmt.Sprintf("two-prunes-%d", n), configs(all, n), grid(seq2))
+	}
+	if r.Thorough() {
+		family("finished-only-4", configs(ready, 4), grid(gridReady))
+		family("two-prunes-2", configs(all, 2), grid(seq2))
+		for n := 0; n <= nSeq3; n++ {
+			family(fmt.Sprintf("three-prunes-%d", n), configs(all, n), grid(seq3))
+		}
+		family("mixed-3", configs(all, 3), mixSeqs)
 	}
 	r.Finish(rule)
 }
